@@ -2409,7 +2409,7 @@ class Sequence(Construct):
         retlist = ListContainer()
         for i,sc in enumerate(self.subcons):
             try:
-                subobj = next(objiter)
+                subobj = next(objiter, None)
                 if sc.name:
                     context[sc.name] = subobj
 
@@ -2468,7 +2468,7 @@ class Sequence(Construct):
         """
         for sc in self.subcons:
             block += f"""
-                    {f'obj = next(objiter)'}
+                    {f'obj = next(objiter, None)'}
                     {f'this[{repr(sc.name)}] = obj' if sc.name else ''}
                     {f'x = '}{sc._compilebuild(code)}
                     {f'retlist.append(x)'}
